@@ -504,6 +504,35 @@ def c16_lockstep(model, rep, r):
         rep.instance("R1", "system.System.%s name registries move in lock-step" % mname, "%s:%d" % (rel, fn.lineno), ok, "%d accepting paths" % nacc)
         n += 1
     rep.floor("R1", n, 4)
+    # what is filed: the group registry holds the `group` argument, the rail registry the `rail` argument (or "" for a load)
+    for mname in ("add_source", "add_comp", "change_comp"):
+        fn, leaves = paths(model, r, mname)
+        params = {a.arg for a in fn.args.args + fn.args.kwonlyargs}
+        ok = True
+        seen = 0
+        for lf in leaves:
+            if lf.kind == "raise":
+                continue
+            for e in lf.events:
+                if e[0] != "store":
+                    continue
+                c = classify_store(e[1])
+                if not (c and c[0] == "REG" and c[1] in ("groups", "rails")):
+                    continue
+                seen += 1
+                want = "group" if c[1] == "groups" else "rail"
+                if want not in params:
+                    continue
+                val = e[2]
+                good = val == Sym(("name", want)) or (c[1] == "rails" and val == "")
+                if not good:
+                    ok = False
+                    rep.violation("R1", "system.System.%s" % mname, "%s:%d" % (rel, e[3] if len(e) > 3 and isinstance(e[3], int) else fn.lineno),
+                                  "registry '%s' receives %s, expected the `%s` argument: the %s shown by params() / tree() / save() is not the one that was configured" % (
+                                      c[1], show_value(val), want, want), "registry %s value %s" % (c[1], show_value(val)))
+        if seen == 0:
+            raise AnalysisError("%s: no store into the group / rail registries found" % mname)
+        rep.instance("R1", "system.System.%s files group and rail under their registries" % mname, "%s:%d" % (rel, fn.lineno), ok)
     # every other method that stores into a name registry may only touch the entry of an existing component
     sysc = model.cls("System")
     others = 0
